@@ -14,6 +14,7 @@ import (
 
 	"verif/gen/cy"
 	"verif/gmodel"
+	"verif/pgsim"
 	"verif/refcypher"
 )
 
@@ -223,4 +224,27 @@ func HasFinalOrder(q *cypher.RegularQuery) bool {
 		sp = q.SingleQuery.MultiPartQuery.SinglePartQuery
 	}
 	return sp != nil && sp.Return != nil && sp.Return.Projection != nil && sp.Return.Projection.Order != nil
+}
+
+// SQLOutcome maps a pgsim outcome to a skip reason ("" = rows were produced). A static error
+// (syntax / binding) is C03's subject, a run-time error is a rejection the properties allow.
+func SQLOutcome(out *pgsim.Outcome) string {
+	switch {
+	case out == nil || out.OK:
+		return ""
+	case out.Unsupported != "":
+		return "pgsim-unsupported: " + Short(out.Unsupported)
+	case out.Err != nil && out.Err.Class == "runtime":
+		return "sql-runtime-error"
+	case out.Err != nil:
+		return "sql-static-error(C03): " + Short(out.Err.Msg)
+	}
+	return "pgsim-unknown-outcome"
+}
+
+func Short(s string) string {
+	if len(s) > 70 {
+		return s[:70]
+	}
+	return s
 }
